@@ -24,6 +24,9 @@ import (
 type gitem struct{ id, cap int }
 
 func c19Sizes(rng *rand.Rand, max int) int {
+	if rng.Intn(14) == 0 { // beyond 32 bits (clamped by the callers that would really allocate)
+		return (1 << uint(32+rng.Intn(29))) + rng.Intn(2049) - 1024
+	}
 	switch rng.Intn(6) {
 	case 0: // around a power of two
 		k := rng.Intn(19)
@@ -149,6 +152,43 @@ func runC19(seed int64, count int, replay string) {
 		}
 		emit("C19 conc 1 %d %d %d", len(got), dup, short)
 		ch.Close(nil)
+	}
+	// a holder that keeps the slice and not the pointer it was given (`buf := *pool.Get(n)`, as the channel does), with
+	// garbage collections in between: the buffer stays its holder's until it is Put
+	{
+		emit("#case gc-while-held")
+		p := pbytes.New(65536)
+		var held [][]byte
+		double := 0
+		owner := map[unsafe.Pointer]int{}
+		for k := 0; k < 6; k++ {
+			b := *p.Get(1000 + k)
+			for i := range b[:cap(b)] {
+				b[:cap(b)][i] = byte('A' + k)
+			}
+			ptr := unsafe.Pointer(unsafe.SliceData(b[:cap(b)]))
+			if _, taken := owner[ptr]; taken {
+				double++
+			}
+			owner[ptr] = k
+			held = append(held, b)
+			runtime.GC()
+			runtime.GC()
+			time.Sleep(2 * time.Millisecond) // finalizers, if any, run now
+		}
+		for k, b := range held { // nobody else wrote into what we hold
+			for _, x := range b[:cap(b)] {
+				if x != byte('A'+k) {
+					double++
+					break
+				}
+			}
+		}
+		for i := range held {
+			b := held[i] // a variable of its own, as `buf := buf[:0]; pool.Put(&buf)` in the channel's sender
+			p.Put(&b)
+		}
+		emit("C19 conc 1 %d %d 0", len(held), double)
 	}
 	for h := 0; h < count; h++ {
 		max := c19Maxes[rng.Intn(len(c19Maxes))]
